@@ -1,5 +1,5 @@
 (* Cases.v — concrete instances used when the models are *run* (correspondence), never in theorems. *)
-From Beff Require Export Model.Validate.
+From Beff Require Export Model.Validate Model.Parse Model.Report.
 
 Fixpoint str_len (s : string) : nat := match s with EmptyString => 0 | String _ s' => S (str_len s') end.
 
@@ -24,3 +24,14 @@ Definition FUEL : nat := 300.
 
 Definition run_validate (env : renv) (strict : bool) (r : rt) (v : val) : string :=
   show_res show_bool (validate F0 env FUEL strict r v).
+
+Definition run_safe_parse (env : renv) (strict : bool) (order : key_order) (r : rt) (v : val) : string :=
+  show_res show_parsed (safe_parse F0 env FUEL strict order r v).
+Definition run_parse (env : renv) (strict : bool) (order : key_order) (r : rt) (v : val) : string :=
+  show_res show_outcome (parse_top F0 env FUEL strict order "T" r v).
+
+(* spec-side evaluations on outputs of the implementation (parsed back from the driver's text) *)
+Definition spec_revalidate (env : renv) (strict : bool) (r : rt) (d : val) : string :=
+  show_res show_bool (validate F0 env FUEL strict r d).
+Definition run_print_errors (es : list err) : string :=
+  show_res (fun s => s) (print_errors FUEL es).
